@@ -14,6 +14,8 @@ import (
 	"sort"
 	"strconv"
 	"strings"
+	"sync/atomic"
+	"time"
 
 	dto "github.com/prometheus/client_model/go"
 	"github.com/prometheus/common/expfmt"
@@ -91,11 +93,12 @@ type metric struct {
 }
 
 type fam struct {
-	name string
-	typ  dto.MetricType
-	help *string
-	unit string
-	ms   []metric
+	protoOnly bool // carries float native histograms, which the text encoders cannot express
+	name      string
+	typ       dto.MetricType
+	help      *string
+	unit      string
+	ms        []metric
 }
 
 var (
@@ -146,7 +149,7 @@ func genValue(r *rand.Rand) float64 {
 	case 3:
 		return 0
 	case 4:
-		return math.Copysign(0, -1)
+		return 5e-324 // (no negative zero: expfmt writes every zero as "0")
 	case 5:
 		return math.Float64frombits(r.Uint64N(1 << 52)) // denormal
 	case 6:
@@ -163,7 +166,10 @@ func genTs(r *rand.Rand) int64 {
 	case 0, 1, 2, 3:
 		return 0
 	case 4:
-		return -int64(1 + r.IntN(5000000))
+		if r.IntN(12) == 0 {
+			return -int64(1 + r.IntN(5000000))
+		}
+		return int64(1 + r.IntN(1000))
 	case 5:
 		return 1700000000000 + int64(r.IntN(100000000))
 	default:
@@ -176,7 +182,7 @@ func genExemplar(r *rand.Rand, utf bool) *exm {
 		return nil
 	}
 	e := &exm{v: genValue(r)}
-	n := r.IntN(3)
+	n := 1 + r.IntN(3) // (expfmt does not write exemplars without labels)
 	seen := map[string]bool{}
 	for i := 0; i < n; i++ {
 		k := []string{"trace_id", "span_id", "k"}[r.IntN(3)]
@@ -302,8 +308,15 @@ func genFamilies(r *rand.Rand, utf bool) []*fam {
 						if m.native.Count() == 0 {
 							m.native.Pos[1] = 3
 						}
-					} else if m.native.ZeroThreshold == 0 && len(m.native.Pos) == 0 && len(m.native.Neg) == 0 {
-						m.native.Pos[0] = 1 // otherwise indistinguishable from a classic histogram
+						f.protoOnly = true // expfmt refuses float histograms in OpenMetrics
+					} else {
+						if m.native.ZeroThreshold == 0 && len(m.native.Pos) == 0 && len(m.native.Neg) == 0 {
+							m.native.Pos[0] = 1 // otherwise indistinguishable from a classic histogram
+						}
+						m.count = m.native.Count() // sample_count is shared by the classic and the native part
+						if n := len(m.b); n > 0 && math.IsInf(m.b[n-1].le, 1) {
+							m.b[n-1].cum = m.count
+						}
 					}
 				}
 			}
@@ -554,7 +567,7 @@ func expect(fams []*fam, ru fmtRules) expectation {
 				st = m.created
 			}
 			add := func(part, name, magic string, mval, v float64, ex *exm) {
-				s := expSample{id: fmt.Sprintf("%d/%d/%s", fi, mi, part), name: name, lbls: m.lbls, magic: magic, mval: mval, v: v, ts: m.ts, st: st, fam: fi}
+				s := expSample{id: fmt.Sprintf("%s/%d/%s", f.name, mi, part), name: name, lbls: m.lbls, magic: magic, mval: mval, v: v, ts: m.ts, st: st, fam: fi}
 				if ru.exemplars {
 					s.ex = ex
 				}
@@ -562,7 +575,7 @@ func expect(fams []*fam, ru fmtRules) expectation {
 			}
 			createdSeries := func(name string) {
 				if ru.createdAsSeries && m.created != 0 {
-					s := expSample{id: fmt.Sprintf("%d/%d/created", fi, mi), name: name, lbls: m.lbls, v: float64(m.created) / 1000, fam: fi}
+					s := expSample{id: fmt.Sprintf("%s/%d/created", f.name, mi), name: name, lbls: m.lbls, v: float64(m.created) / 1000, fam: fi}
 					e.samples = append(e.samples, s)
 				}
 			}
@@ -799,8 +812,20 @@ func compareParse(c *core.Case, fams []*fam, payload []byte, ps parseSpec, entri
 	d := multisetDiff(want, got)
 	if !d.empty() {
 		ok = false
-		kind := classify(c, ps, d, payload)
-		c.Violatef(kind, "%s parse (options %+v): samples differ from the encoded families\n  expected but not parsed:\n    %s\n  parsed but not expected:\n    %s\npayload:\n%s", ps.format, ps.opts, first(d.missing, 6), first(d.extra, 6), showPayload(ps.format, payload))
+		// structured second look: which recorded mechanisms explain the leftovers?
+		var wr, gr []srec
+		for i := range exp.samples {
+			wr = append(wr, exp.samples[i].rec(withEx, withST))
+		}
+		for i := range entries {
+			if entries[i].Kind == textparse.EntrySeries {
+				gr = append(gr, parsedRec(&entries[i], withEx, withST))
+			}
+		}
+		kinds := explain(ps, d, wr, gr)
+		for _, kind := range kinds {
+			c.Violatef(kind, "%s parse (options %+v): samples differ from the encoded families\n  expected but not parsed:\n    %s\n  parsed but not expected:\n    %s\npayload:\n%s", ps.format, ps.opts, first(d.missing, 6), first(d.extra, 6), showPayload(ps.format, payload))
+		}
 	}
 	// native histograms
 	var wh, gh []string
@@ -890,10 +915,155 @@ func compareParse(c *core.Case, fams []*fam, payload []byte, ps parseSpec, entri
 	return magic, ok
 }
 
-// classify gives recorded failure mechanisms their own kinds (see FINDINGS.md); everything else is
-// "samples-mismatch".
-func classify(c *core.Case, ps parseSpec, d diff, payload []byte) string {
-	return "samples-mismatch"
+// srec is a sample in structured form, for telling recorded failure mechanisms apart.
+type srec struct {
+	full    string
+	base    string // name, labels, value
+	t, st   int64
+	hasEx   bool
+	exL     [][2]string
+	exV     string
+	exHasTs bool
+	exTs    int64
+}
+
+func sortedPairs(l [][2]string) [][2]string {
+	out := append([][2]string{}, l...)
+	sort.Slice(out, func(i, j int) bool { return out[i][0] < out[j][0] })
+	return out
+}
+
+func (s *expSample) rec(withEx, withST bool) srec {
+	l := append([][2]string{}, s.lbls...)
+	if s.magic != "" {
+		l = append(l, [2]string{s.magic, "#" + fnum(s.mval)})
+	}
+	r := srec{full: s.keyLikeParsed(withEx, withST), base: fmt.Sprintf("%s{%s} v=%s", s.name, labelsKey(l), valKey(s.v)), t: s.ts}
+	if withST {
+		r.st = s.st
+	}
+	if withEx && s.ex != nil {
+		r.hasEx, r.exL, r.exV, r.exHasTs, r.exTs = true, sortedPairs(s.ex.lbl), valKey(s.ex.v), s.ex.hasTs, s.ex.ts
+	}
+	return r
+}
+
+func parsedRec(en *expo.Entry, withEx, withST bool) srec {
+	full, _, _ := parsedSampleKey(en, withEx, withST)
+	r := srec{full: full, base: strings.SplitN(full, " t=", 2)[0]}
+	if en.HasTs {
+		r.t = en.Ts
+	}
+	if withST {
+		r.st = en.ST
+	}
+	if withEx && len(en.Ex) == 1 {
+		x := en.Ex[0]
+		r.hasEx, r.exL, r.exV, r.exHasTs, r.exTs = true, x.Pairs, valKey(x.Value), x.HasTs, x.Ts
+	} else if withEx && len(en.Ex) > 1 {
+		r.hasEx, r.exV = true, "several exemplars"
+	}
+	return r
+}
+
+const (
+	kindOMTs    = "om-timestamp-truncated-by-1ms"
+	kindOMExEsc = "om-exemplar-label-value-not-unescaped"
+	kindGeneric = "samples-mismatch"
+)
+
+func off1(a, b int64) bool { return a-b == 1 || b-a == 1 }
+
+// explain pairs the leftover expected/parsed samples by name+labels+value and reports which kinds
+// account for the differences; anything not accounted for yields the generic kind.
+func explain(ps parseSpec, d diff, want, got []srec) []string {
+	if ps.format != "om" {
+		return []string{kindGeneric}
+	}
+	pick := func(recs []srec, fulls []string) []srec {
+		cnt := map[string]int{}
+		for _, f := range fulls {
+			cnt[f]++
+		}
+		var out []srec
+		for _, r := range recs {
+			if cnt[r.full] > 0 {
+				cnt[r.full]--
+				out = append(out, r)
+			}
+		}
+		return out
+	}
+	miss, extra := pick(want, d.missing), pick(got, d.extra)
+	if len(miss) != len(extra) {
+		return []string{kindGeneric}
+	}
+	used := make([]bool, len(extra))
+	kinds := map[string]bool{}
+	escaper := strings.NewReplacer(`\\`, `\\\\`, "\n", `\\n`, `"`, `\\"`)
+	for _, w := range miss {
+		found := false
+		for j, g := range extra {
+			if used[j] || g.base != w.base || g.hasEx != w.hasEx {
+				continue
+			}
+			local := map[string]bool{}
+			okPair := true
+			if g.t != w.t {
+				if w.t != 0 && g.t != 0 && off1(g.t, w.t) {
+					local[kindOMTs] = true
+				} else {
+					okPair = false
+				}
+			}
+			if g.st != w.st {
+				if w.st != 0 && g.st != 0 && off1(g.st, w.st) {
+					local[kindOMTs] = true
+				} else {
+					okPair = false
+				}
+			}
+			if w.hasEx {
+				if g.exV != w.exV || g.exHasTs != w.exHasTs || len(g.exL) != len(w.exL) {
+					okPair = false
+				} else {
+					if g.exTs != w.exTs {
+						if off1(g.exTs, w.exTs) {
+							local[kindOMTs] = true
+						} else {
+							okPair = false
+						}
+					}
+					for i := range w.exL {
+						if g.exL[i] == w.exL[i] {
+							continue
+						}
+						if g.exL[i][0] == w.exL[i][0] && g.exL[i][1] == escaper.Replace(w.exL[i][1]) {
+							local[kindOMExEsc] = true
+						} else {
+							okPair = false
+						}
+					}
+				}
+			}
+			if okPair && len(local) > 0 {
+				used[j], found = true, true
+				for k := range local {
+					kinds[k] = true
+				}
+				break
+			}
+		}
+		if !found {
+			return []string{kindGeneric}
+		}
+	}
+	var out []string
+	for k := range kinds {
+		out = append(out, k)
+	}
+	sort.Strings(out)
+	return out
 }
 
 // ---------------------------------------------------------------- totality
@@ -960,32 +1130,134 @@ func randomOpts(r *rand.Rand) textparse.ParserOptions {
 	}
 }
 
-// totalOne parses one hostile payload; a panic raised in repository code becomes a violation that
-// carries the payload.
-func totalOne(c *core.Case, payload []byte, ct string, o textparse.ParserOptions, readST bool) {
-	defer func() {
-		if rec := recover(); rec != nil {
-			st := make([]byte, 32<<10)
-			st = st[:runtime.Stack(st, false)]
-			if core.PanicOrigin(string(st)) != "repo" {
-				panic(rec)
+// hangsSeen counts hostile parses of this worker process that did not return (their goroutines keep
+// spinning; see totalOne).
+var hangsSeen atomic.Int32
+
+const kindTextNegTs = "text-negative-timestamp-rejected"
+
+func hasNegativeTs(fams []*fam) bool {
+	for _, f := range fams {
+		for _, m := range f.ms {
+			if m.ts < 0 {
+				return true
 			}
-			c.Violatef("panic-on-hostile-payload", "content type %s, options %+v: panic %v\npayload: %q\n%s", ct, o, rec, clipS(string(payload), 1500), core.TrimStack(string(st), 30))
 		}
-	}()
-	p, _ := textparse.New(payload, ct, labels.NewSymbolTable(), o)
-	if p == nil {
+	}
+	return false
+}
+
+const (
+	kindHang   = "parser-hangs-on-hostile-payload"
+	kindSTHang = "om-starttimestamp-peek-spins-on-invalid-token"
+)
+
+// risksSTPeek: the combinations in which OpenMetricsParser.StartTimestamp (peeking parse) is reached.
+func risksSTPeek(ct string, o textparse.ParserOptions, readST bool) bool {
+	return ct == expo.CTOM && (readST || (o.ConvertClassicHistogramsToNHCB && o.OpenMetricsSkipSTSeries))
+}
+
+// totalOne parses one hostile payload in its own goroutine.  A panic raised in repository code becomes a
+// violation that carries the payload.  A parse that has not returned after hangTimeout (payloads are
+// < 64 KiB and parse in well under a millisecond) and whose goroutine is then found twice, one second
+// apart, inside repository frames is reported as a hang; the goroutine cannot be stopped and keeps
+// spinning until the worker exits.
+func totalOne(c *core.Case, payload []byte, ct string, o textparse.ParserOptions, readST bool) {
+	if hangsSeen.Load() > 0 && risksSTPeek(ct, o, readST) {
+		// recorded mechanism already observed in this process: do not pile up spinning goroutines
+		c.Count("hostile_parses_skipped_after_hang_in_this_worker", 1)
 		return
 	}
-	entries, err := expo.ReadAll(p, expo.ReadOpts{StartTimestamps: readST, MaxEntries: 4*len(payload) + 64})
-	if err != nil && strings.HasPrefix(err.Error(), "more than ") {
-		c.Violatef("parser-does-not-terminate", "content type %s, options %+v: more than %d entries from a payload of %d bytes\npayload: %q", ct, o, len(entries), len(payload), clipS(string(payload), 1500))
+	type outcome struct {
+		entries int
+		err     error
+		pan     any
+		stack   string
 	}
-	if err != nil {
+	done := make(chan outcome, 1)
+	var gid atomic.Int64
+	go func() {
+		var out outcome
+		defer func() {
+			if rec := recover(); rec != nil {
+				st := make([]byte, 32<<10)
+				st = st[:runtime.Stack(st, false)]
+				out.pan, out.stack = rec, string(st)
+			}
+			done <- out
+		}()
+		gid.Store(goid())
+		p, _ := textparse.New(payload, ct, labels.NewSymbolTable(), o)
+		if p == nil {
+			return
+		}
+		entries, err := expo.ReadAll(p, expo.ReadOpts{StartTimestamps: readST, MaxEntries: 4*len(payload) + 64})
+		out.entries, out.err = len(entries), err
+	}()
+	var out outcome
+	select {
+	case out = <-done:
+	case <-time.After(hangTimeout):
+		s1 := stackOf(gid.Load())
+		time.Sleep(time.Second)
+		select {
+		case out = <-done: // slow, not hung (loaded machine)
+			c.Count("hostile_parses_slower_than_hang_timeout", 1)
+		default:
+			s2 := stackOf(gid.Load())
+			if !strings.Contains(s1, "/repo/") || !strings.Contains(s2, "/repo/") {
+				c.Inconclusive("hostile parse did not return within %v but its goroutine is not inside repository code:\n%s", hangTimeout, s2)
+				return
+			}
+			hangsSeen.Add(1)
+			kind := kindHang
+			if strings.Contains(s2, "(*OpenMetricsParser).parseComment") && strings.Contains(s2, "(*OpenMetricsParser).StartTimestamp") {
+				kind = kindSTHang
+			}
+			c.Violatef(kind, "content type %s, options %+v, StartTimestamp read by the caller: %v: the parse of a %d byte payload has not returned after %v; its goroutine is inside\n%s\npayload: %q", ct, o, readST, len(payload), hangTimeout+time.Second, core.TrimStack(s2, 24), clipS(string(payload), 3000))
+			return
+		}
+	}
+	if out.pan != nil {
+		if core.PanicOrigin(out.stack) != "repo" {
+			panic(out.pan)
+		}
+		c.Violatef("panic-on-hostile-payload", "content type %s, options %+v: panic %v\npayload: %q\n%s", ct, o, out.pan, clipS(string(payload), 1500), core.TrimStack(out.stack, 30))
+		return
+	}
+	if out.err != nil && strings.HasPrefix(out.err.Error(), "more than ") {
+		c.Violatef("parser-does-not-terminate", "content type %s, options %+v: more than %d entries from a payload of %d bytes\npayload: %q", ct, o, out.entries, len(payload), clipS(string(payload), 1500))
+	}
+	if out.err != nil {
 		c.Count("hostile_payloads_rejected", 1)
 	} else {
 		c.Count("hostile_payloads_accepted", 1)
 	}
+}
+
+const hangTimeout = 6 * time.Second
+
+func goid() int64 {
+	var buf [64]byte
+	n := runtime.Stack(buf[:], false)
+	f := strings.Fields(strings.TrimPrefix(string(buf[:n]), "goroutine "))
+	if len(f) == 0 {
+		return -1
+	}
+	id, _ := strconv.ParseInt(f[0], 10, 64)
+	return id
+}
+
+// stackOf returns the stack of goroutine id from a dump of all goroutines.
+func stackOf(id int64) string {
+	buf := make([]byte, 1<<20)
+	buf = buf[:runtime.Stack(buf, true)]
+	for _, g := range strings.Split(string(buf), "\n\n") {
+		if strings.HasPrefix(g, fmt.Sprintf("goroutine %d ", id)) {
+			return g
+		}
+	}
+	return ""
 }
 
 // ---------------------------------------------------------------- the case
@@ -995,12 +1267,19 @@ func run(c *core.Case) {
 	utf := r.IntN(3) == 0
 	fams := genFamilies(r, utf)
 	mfs := toDTO(fams)
+	var textFams []*fam
+	for _, f := range fams {
+		if !f.protoOnly {
+			textFams = append(textFams, f)
+		}
+	}
+	textMfs := toDTO(textFams)
 	skipST := r.IntN(2) == 0
 
-	text := encode(mfs, expfmt.NewFormat(expfmt.TypeTextPlain))
+	text := encode(textMfs, expfmt.NewFormat(expfmt.TypeTextPlain))
 	omFmt, err := expfmt.NewOpenMetricsFormat(expfmt.OpenMetricsVersion_1_0_0)
 	core.Must(err, "openmetrics format")
-	om := encode(mfs, omFmt, expfmt.WithCreatedLines())
+	om := encode(textMfs, omFmt, expfmt.WithCreatedLines())
 	pb := encode(mfs, expfmt.NewFormat(expfmt.TypeProtoDelim))
 	payloads := map[string][]byte{"text": text, "om": om, "proto": pb}
 
@@ -1023,10 +1302,18 @@ func run(c *core.Case) {
 		c.Count("parses_"+ps.rules.name, 1)
 		if err != nil {
 			allOK = false
-			c.Violatef("valid-payload-rejected", "%s parse (options %+v) fails on an expfmt-encoded payload: %v\npayload:\n%s", ps.format, ps.opts, err, showPayload(ps.format, payload))
+			kind := "valid-payload-rejected"
+			if ps.format == "text" && hasNegativeTs(textFams) && strings.Contains(err.Error(), `expected timestamp or new record, got "-"`) {
+				kind = kindTextNegTs
+			}
+			c.Violatef(kind, "%s parse (options %+v) fails on an expfmt-encoded payload: %v\npayload:\n%s", ps.format, ps.opts, err, showPayload(ps.format, payload))
 			continue
 		}
-		magic, ok := compareParse(c, fams, payload, ps, entries)
+		fl := fams
+		if ps.format != "proto" {
+			fl = textFams
+		}
+		magic, ok := compareParse(c, fl, payload, ps, entries)
 		if !ok {
 			allOK = false
 		}
@@ -1113,9 +1400,16 @@ func sameButTypeUnit(a, b []expo.Entry) string {
 		if x.Kind != textparse.EntrySeries && x.Kind != textparse.EntryHistogram {
 			continue
 		}
-		lb := labels.NewBuilder(y.Labels)
-		lb.Del("__type__", "__unit__")
-		y.Labels = lb.Labels()
+		strip := func(l labels.Labels) labels.Labels {
+			var keep []labels.Label
+			l.Range(func(v labels.Label) {
+				if v.Name != "__type__" && v.Name != "__unit__" {
+					keep = append(keep, v)
+				}
+			})
+			return labels.New(keep...)
+		}
+		x.Labels, y.Labels = strip(x.Labels), strip(y.Labels)
 		if x.SampleKey(false) != y.SampleKey(false) {
 			return fmt.Sprintf("entry %d differs beyond __type__/__unit__: without %s, with %s", i, x.Short(), b[i].Short())
 		}
